@@ -10,7 +10,7 @@ from .storebase import StoreProfile
 class CrudProfile(StoreProfile):
     name = "crud"
     prop = "C15"
-    names = PLAIN_NAMES + ["x_y", "bob-x", "zoé"]
+    names = PLAIN_NAMES + ["x_y", "bob-x", "zoé", "zoe\u0301"]
     rule = ("one case = one operation (create / set / update / restart) of a seeded or swept history followed by the "
             "full invariant pass (error behaviour + unchanged tree, existence of the entity and its path ancestors in "
             "every matching star search with nothing else appearing, data of every alphabet Sid = overlay in call order, "
